@@ -20,6 +20,16 @@ def expr_text_safe(n):
         return "?"
 
 
+def base_arrow(n):
+    """does the member chain go through a pointer (->) at its base?"""
+    x = n
+    while x is not None and x.get("k") == "MemberExpr":
+        if x.get("arrow"):
+            return True
+        x = strip(x["c"][0]) if x.get("c") else None
+    return False
+
+
 class Abort(Exception):
     """abort() / failed assert reached"""
 
@@ -128,6 +138,12 @@ def _wrap(types, n, v):
 RESOLVE = {"fn": None}
 
 
+class Ptr:
+    """address of a record held in a variable of some frame (`&res` handed to a helper that fills it in)"""
+    def __init__(self, env, d, t):
+        self.env, self.d, self.t = env, d, t
+
+
 class Folder:
     def __init__(self, fn, calls=None, max_steps=20000, depth=0, inline=False):
         self.fn = fn
@@ -167,15 +183,19 @@ class Folder:
                 x = strip(x["c"][0]) if x.get("c") else None
                 while x is not None and x.get("k") in CASTS and x.get("c"):
                     x = strip(x["c"][0])
-            if x is not None and x.get("k") == "DeclRefExpr" and x.get("dk") in ("var", "parm") and not n.get("arrow"):
-                return (x["d"], ".".join(reversed(names)), x.get("t"))
+            if x is not None and x.get("k") == "DeclRefExpr" and x.get("dk") in ("var", "parm"):
+                pv = self.env.get(x["d"])
+                if isinstance(pv, Ptr):
+                    return (pv, ".".join(reversed(names)), pv.t)
+                if not base_arrow(n):
+                    return (x["d"], ".".join(reversed(names)), x.get("t"))
         raise NotConst("lvalue %s" % (n0.get("k") if n0 else None))
 
     def load(self, key):
         if not isinstance(key, tuple):
             return self.env[key]
         d, path, t = key
-        rec = self.env.get(d)
+        rec = d.env.get(d.d) if isinstance(d, Ptr) else self.env.get(d)
         if not isinstance(rec, dict):
             raise NotConst("member of a value that is not a record")
         if path in rec:
@@ -204,7 +224,7 @@ class Folder:
             self.env[key] = dict(v) if isinstance(v, dict) else v
             return
         d, path, t = key
-        rec = self.env.setdefault(d, {})
+        rec = d.env.setdefault(d.d, {}) if isinstance(d, Ptr) else self.env.setdefault(d, {})
         if not isinstance(rec, dict):
             raise NotConst("member of a value that is not a record")
         lay = self.layout(t)
@@ -311,6 +331,12 @@ class Folder:
                 return old if n.get("postfix") else new
             if op == "__extension__":
                 return self.ev(n["c"][0])
+            if op == "&":
+                x = strip(n["c"][0])
+                if x is not None and x.get("k") == "DeclRefExpr" and x.get("dk") in ("var", "parm"):
+                    self.env.setdefault(x["d"], {})
+                    return Ptr(self.env, x["d"], x.get("t"))
+                raise NotConst("address of %s" % expr_text_safe(x))
             v = self.ev(n["c"][0])
             if op == "!":
                 return int(not self.truth(v))
